@@ -25,15 +25,15 @@ def split_cases(text):
     return res, order
 
 
-# C16_FIXED=rollback,name,memattr makes the model follow the code with the
-# corresponding patches/fix-C16-*.diff applied (used to validate the patches
-# before they are committed to the repository)
-FIXED = os.environ.get("C16_FIXED", "")
+# C16_PREFIX=rollback,name,memattr makes the model follow the code as it was
+# before the corresponding fix commit (751402d, 566d2c2, ac5e4b1): only for
+# replaying the old defects against an old tree
+FIXED = os.environ.get("C16_PREFIX", "")
 
 
 def run_script(exe, drv, script):
     rc, out, err = C.sh([exe], input=script.encode(), env=C.run_env(), timeout=600)
-    rc2, out2, err2 = C.sh([drv] + (["--fixed=" + FIXED] if FIXED else []), input=out, timeout=600)
+    rc2, out2, err2 = C.sh([drv] + (["--prefix=" + FIXED] if FIXED else []), input=out, timeout=600)
     return rc, out.decode(errors="replace"), err.decode(errors="replace"), rc2, out2.decode(errors="replace"), err2.decode(errors="replace")
 
 
